@@ -57,18 +57,29 @@ def audit():
     return bad
 
 
+def claimed():
+    """property ids with a fragment in tools/manifest.d (= the checks registered in MANIFEST.json)"""
+    d = os.path.join(VERIF, "tools", "manifest.d")
+    return sorted(f[:-5] for f in os.listdir(d) if f.endswith(".json"))
+
+
 def setup():
+    """Regenerate Gen/*.v from /repo and build the Coq targets of every CLAIMED check (full .vo)."""
     t0 = time.time()
-    for pid in ALL:
+    targets = []
+    for pid in claimed():
         mod = load(pid)
-        if mod and hasattr(mod, "generate"):
+        if mod is None:
+            continue
+        if hasattr(mod, "generate"):
             try:
                 mod.generate(Ctx(pid, "quick", 0))
             except Exception as e:  # setup never fails on a translator refusal; the check reports it
                 print(f"[setup] generate {pid}: {e}")
-    ok, log = common.coq_make(["all"], timeout=3000)
-    print(log[-4000:])
-    print(f"[setup] coq build ok={ok} in {time.time()-t0:.0f}s")
+        targets += [t for t in getattr(mod, "TARGETS", []) if t not in targets]
+    ok, log = common.coq_make(targets, timeout=3000)
+    print(log[-3000:])
+    print(f"[setup] {len(targets)} coq targets for {len(claimed())} checks, ok={ok}, {time.time()-t0:.0f}s")
     return 0 if ok else 1
 
 
